@@ -5,6 +5,7 @@
 //   with allow_incomplete in {false,true}; an incomplete output pattern without allow_incomplete MUST abort.
 #include <c03_common.hpp>
 #include <c03_unary.hpp>
+#include <kernel/lafem/dense_matrix.hpp>
 
 using namespace c03;
 
@@ -76,6 +77,113 @@ namespace
             }
       }
     }
+  }
+
+
+  // ------------------------------------------------------------------------------------------ DenseMatrix::multiply (dense*dense and CSR*dense)
+  // this <- x*y                       (2 operands; the old content of the output must not matter)
+  // this <- alpha x*y + beta z        (z separate, z == this (in-place GEMM, legal: the MKL backend requires it), z == x, z == y)
+  // this <- alpha X*y + beta this     (X sparse CSR, accumulating)           -- each also as a repeated accumulating call on one object
+  static const LD dscal[6] = {LD(0), LD(1), LD(-1), LD(0.5L), LD(2), LD(0.3L)};
+  static const char* dscal_name[6] = {"0", "1", "-1", "0.5", "2", "0.3"};
+
+  inline LD dval(int which, int alphabet, int i, int j)   // which: 0 x, 1 y, 2 z / old content of the output
+  {
+    return aval(alphabet, i + 2 * which, j + which);
+  }
+
+  template<typename DT, typename IT>
+  void fill_dense(DenseMatrix<DT, IT>& a, const DenseRef& d) { for(int i = 0; i < d.m; ++i) for(int j = 0; j < d.n; ++j) a.elements()[i * d.n + j] = DT(d.at(i, j)); }
+
+  inline DenseRef dense_vals(int which, int m, int n, int alphabet, int zeros)
+  {
+    DenseRef d(m, n);
+    for(int i = 0; i < m; ++i) for(int j = 0; j < n; ++j) d.set(i, j, (zeros && ((i + 2 * j + which) % 3 == 0)) ? LD(0) : dval(which, alphabet, i, j));
+    return d;
+  }
+
+  template<typename DT, typename IT>
+  void enum_dense_products(verif::Ctx& c)
+  {
+    typedef DenseMatrix<DT, IT> M; typedef SparseMatrixCSR<DT, IT> MC;
+    const LD eps = LD(std::numeric_limits<DT>::epsilon());
+    const LD nan = std::numeric_limits<LD>::quiet_NaN();
+    const int maxd = c.thorough ? 4 : 3;
+    // mode: 0 multiply(x,y) output pre-filled with finite values, 1 same with NaN in the output, 2 z separate, 3 z == this, 4 z == x (k == n), 5 z == y (m == k),
+    //       6 CSR x: multiply(X,y), 7 CSR x: multiply(X,y) NaN in the output, 8 CSR x: multiply(X,y,alpha,beta)
+    for(int m = 1; m <= maxd; ++m) for(int k = 1; k <= maxd; ++k) for(int n = 1; n <= maxd; ++n)
+      for(int mode = 0; mode <= 8; ++mode)
+      {
+        if(mode == 4 && k != n) continue;
+        if(mode == 5 && m != k) continue;
+        const bool sparse = (mode >= 6);
+        const int npat = sparse ? (m * k <= 9 ? (1 << (m * k)) : 0) : 2;       // sparse: all patterns of X; dense: full / with exact zeros
+        for(int pat = 0; pat < npat; ++pat)
+          for(int rep = 0; rep < ((sparse && pat == 0) ? 2 : 1); ++rep)
+            for(int ai = 0; ai < ((mode == 0 || mode == 1 || mode == 6 || mode == 7) ? 1 : 6); ++ai)
+              for(int bi = 0; bi < ((mode == 0 || mode == 1 || mode == 6 || mode == 7) ? 1 : 6); ++bi)
+                for(int alphabet = 0; alphabet < 3; ++alphabet)
+                {
+                  if(!c.want()) continue;
+                  const bool two = (mode == 0 || mode == 1 || mode == 6 || mode == 7);
+                  const LD alpha = two ? LD(1) : LD(DT(dscal[ai])), beta = two ? LD(0) : LD(DT(dscal[bi]));
+                  static const char* mn[9] = {"dense.multiply(x,y)", "dense.multiply(x,y) NaN-in-output", "dense.multiply(x,y,z,alpha,beta)", "dense.multiply(x,y,z,alpha,beta) z==this",
+                    "dense.multiply(x,y,z,alpha,beta) z==x", "dense.multiply(x,y,z,alpha,beta) z==y", "dense.multiply(csr,y)", "dense.multiply(csr,y) NaN-in-output", "dense.multiply(csr,y,alpha,beta)"};
+                  const std::string key = mn[mode];
+                  c.desc([&]{ std::ostringstream o; o << "dense<" << tp<DT, IT>() << "> " << key << " m,k,n=" << m << "," << k << "," << n << (sparse ? " X pattern=" : " zeros=") << pat
+                    << (sparse && pat == 0 ? (rep ? " rep=allocated-empty" : " rep=entry-free") : "") << " alpha=" << (two ? "1" : dscal_name[ai]) << " beta=" << (two ? "0" : dscal_name[bi]) << " alphabet=" << alphabet_name(alphabet); return o.str(); });
+                  DenseRef X = sparse ? DenseRef(m, k) : dense_vals(0, m, k, alphabet, pat);
+                  if(sparse) for(int i = 0; i < m; ++i) for(int j = 0; j < k; ++j) if((pat >> (i * k + j)) & 1) X.set(i, j, dval(0, alphabet, i, j));
+                  DenseRef Y = dense_vals(1, k, n, alphabet, sparse ? 0 : pat), Z = dense_vals(2, m, n, alphabet, 0);
+                  for(DenseRef* p : {&X, &Y, &Z}) for(auto& v : p->a) v = LD(DT(v));
+                  M mx{Index(m), Index(k)}, my{Index(k), Index(n)}, mz{Index(m), Index(n)}, mr{Index(m), Index(n)};
+                  fill_dense(mx, X); fill_dense(my, Y); fill_dense(mz, Z);
+                  // old content of the output: Z (in-place modes), NaN (modes 1, 2, 7: it must never be read), finite marker otherwise
+                  DenseRef R0 = Z;
+                  if(mode == 1 || mode == 2 || mode == 7 || mode == 4 || mode == 5) for(auto& v : R0.a) v = nan;
+                  fill_dense(mr, R0);
+                  MC cx; if(sparse) cx = build_csr<DT, IT>(X, rep);
+                  const bool ef = sparse && pat == 0 && rep == 0;
+                  // the z operand of the dense modes
+                  const DenseRef& ZZ = (mode == 4) ? X : (mode == 5) ? Y : Z;
+                  auto op = [&]{
+                    switch(mode)
+                    {
+                    case 0: case 1: mr.multiply(mx, my); break;
+                    case 2: mr.multiply(mx, my, mz, DT(alpha), DT(beta)); break;
+                    case 3: mr.multiply(mx, my, mr, DT(alpha), DT(beta)); break;
+                    case 4: mr.multiply(mx, my, mx, DT(alpha), DT(beta)); break;
+                    case 5: mr.multiply(mx, my, my, DT(alpha), DT(beta)); break;
+                    case 6: case 7: mr.multiply(cx, my); break;
+                    default: mr.multiply(cx, my, DT(alpha), DT(beta)); break;
+                    } };
+                  auto body = [&]{
+                    const uint64_t hx = hash_of(mx), hy = hash_of(my), hz = hash_of(mz), hc = sparse ? hash_of(cx) : 0;
+                    std::vector<LD> cur(size_t(m * n)); for(int i = 0; i < m; ++i) for(int j = 0; j < n; ++j) cur[size_t(i * n + j)] = R0.at(i, j);
+                    const bool inplace = (mode == 3 || mode == 8);
+                    const bool exact = alphabet_exact(alphabet) && (two || (ai != 5 && bi != 5));
+                    for(int pass = 0; pass < 2; ++pass)   // pass 1: repeated (accumulating) call on the same objects
+                    {
+                      op();
+                      c.count("operations"); if(pass) c.count("re_invocations");
+                      bool ok = true;
+                      for(int i = 0; i < m && ok; ++i) for(int j = 0; j < n && ok; ++j)
+                      {
+                        LD s2 = 0, as = 0; for(int q = 0; q < k; ++q) if(X.has(i, q)) { const LD t = X.at(i, q) * Y.at(q, j); s2 += t; as += fabsl(t); }
+                        const LD zold = two ? LD(0) : inplace ? cur[size_t(i * n + j)] : ZZ.at(i, j);
+                        const LD expect = alpha * s2 + beta * zold;
+                        ok = near<DT>(c, key + (pass ? " re-invocation" : ""), mr.elements()[i * n + j], expect, exact, LD(8 * (k + 3)) * eps * (fabsl(alpha) * as + fabsl(beta * zold)),
+                          "entry (" + std::to_string(i) + "," + std::to_string(j) + ")");
+                      }
+                      if(!ok) return;
+                      for(int i = 0; i < m * n; ++i) cur[size_t(i)] = LD(mr.elements()[i]);
+                      if(!c.check(hash_of(mx) == hx && hash_of(my) == hy && hash_of(mz) == hz && (!sparse || hash_of(cx) == hc), key + " operand-modified", "an input operand was modified")) return;
+                    } };
+                  guarded(c, ef, "entry-free operand dense.multiply(csr,y) x", body);
+                  if(!sparse || pat != 0) c.nontrivial(verif::Hash().str("dm").str(tp<DT, IT>()).pod(m).pod(k).pod(n).pod(mode).pod(pat).pod(ai).pod(bi).pod(alphabet).get());
+                  c.outcome(std::string("dense/") + mn[mode]);
+                }
+      }
   }
 
   // ------------------------------------------------------------------------------------------ sparse matrix products
@@ -301,5 +409,7 @@ int main(int argc, char** argv)
     enum_products<double, std::uint64_t>(c, 16);
     enum_products<float, std::uint32_t>(c, 12);
 #endif
+    enum_dense_products<double, std::uint64_t>(c);
+    enum_dense_products<float, std::uint32_t>(c);
   });
 }
